@@ -217,3 +217,29 @@ func vrAllLoopsNonNil(p *Polygon) bool {
 	}
 	return true
 }
+
+// "The decoded value can be queried": after a successful lossless Loop.Decode the basic
+// queries must not panic — vertex accessors, the Shape methods and the brute-force
+// containment test (the crossing predicate is the C04 oracle; bounds/index construction
+// on decoded floats stays outside).
+func Harness_C15_Loop_usable() {
+	vr.Domain("RUF")
+	vrC15Stubs()
+	vr.Stub("(*EdgeCrosser).EdgeOrVertexChainCrossing", "vrstub_C04_EOVCC")
+	vr.Stub("(*EdgeCrosser).RestartAt", "vrstub_C04_RestartAt")
+	r := vrNewReader()
+	var l Loop
+	err := l.Decode(r)
+	if err != nil {
+		vr.Reach("rejected")
+		return
+	}
+	p := vrBoundedPoint("p")
+	vrC04P = p
+	_ = l.NumEdges()
+	_ = l.NumVertices()
+	_ = l.NumChains()
+	_ = l.IsEmpty()
+	_ = l.bruteForceContainsPoint(p)
+	vr.Reach("end")
+}
